@@ -1,16 +1,16 @@
 CONSTANTS
-  Hosts <- H2
+  Hosts <- H1
   HostPort <- MCHostPort
   SPorts <- F_SPorts
   Dsts <- F_Dsts
   Remotes <- R1
   Locals <- MCLocals
-  DPorts <- F_DPorts
+  DPorts <- DP53
   Protos <- F_Protos
   Rnds <- F_Rnds
-  InPorts <- F_InPorts
-  GwMacs <- GW2
-  Vias <- Via3
+  InPorts <- NoPorts
+  GwMacs <- GW1
+  Vias <- Via1
   HasDns = TRUE
   Strict = FALSE
   Unit = 30
